@@ -461,7 +461,7 @@ def run(ctx):
     else:
         seq = gen_seq(ctx, ctx.scale(1500, 20000))
         par_by_P = {}; trig_cases = []
-        plan = [(1, 60, 600, 1), (2, 220, 2500, 1), (3, 220, 2500, 1), (4, 220, 2500, 1), (5, 60, 1200, 0), (7, 40, 1200, 0)]
+        plan = [(1, 60, 600, 1), (2, 220, 2500, 1), (3, 220, 2500, 1), (4, 220, 2500, 1), (5, 60, 1200, 0), (6, 0, 1200, 1), (7, 40, 1200, 0), (8, 0, 800, 0)]
         for (P, q, t, nt) in plan:
             par_by_P[P], tc = gen_par(ctx, ctx.scale(q, t), P, ctx.scale(nt, 3))
             trig_cases += tc
@@ -483,14 +483,14 @@ def run(ctx):
         if not cs: continue
         t0 = time.time()
         impl, crashed = fw.run_impl_lines(ctx, "drv_spgemm", [c["line"] for c in cs], nprocs=P, name="c06par%d" % P,
-                                          timeout=ctx.scale(120, 600), max_restarts=6)
+                                          timeout=ctx.scale(300, 900), max_restarts=6)
         tm["P%d_impl" % P] = round(time.time() - t0, 1); t0 = time.time()
         for c in cs: judge_par(ctx, c, impl, model)
         tm["P%d_judge" % P] = round(time.time() - t0, 1)
     # cases of the 'split' class (open finding init_matrix_deadlock): one launch each, short timeout (the symptom is a hang)
     t0 = time.time()
     for c in trig_cases:
-        impl, crashed = fw.run_impl_lines(ctx, "drv_spgemm", [c["line"]], nprocs=c["P"], name="c06trig_" + c["cid"], timeout=8, max_restarts=0)
+        impl, crashed = fw.run_impl_lines(ctx, "drv_spgemm", [c["line"]], nprocs=c["P"], name="c06trig_" + c["cid"], timeout=12, max_restarts=0)
         judge_par(ctx, c, impl, model)
     tm["split_class_launches"] = round(time.time() - t0, 1)
     ctx.notes.append("phase seconds: %s" % tm)
